@@ -28,7 +28,7 @@ RULE = ('seeded hit-time sequences (bursts, exact period boundaries, window edge
 ASSUMPTIONS = ['time is the agent\'s own reading of time.time_ns (virtual clock)',
                'under concurrency only the upper bounds are asserted (count <= fire_count, spacing >= period); '
                'must-collect is asserted single-threaded']
-REQUIRE = {'hits_checked': 5000, 'refused_by_count': 200, 'refused_by_period': 200, 'refused_by_window': 100,
+REQUIRE = {'true_hits_while_a_false_condition_was_being_evaluated': 3, 'hits_checked': 5000, 'refused_by_count': 200, 'refused_by_period': 200, 'refused_by_window': 100,
            'boundary_hits': 50, 'gated_cases': 30, 'hostile_schedules': 30,
            'overlap_cases': 30, 'hits_while_collection_open': 30, 'interpose_points': 15,
            'overlap_cases_with_condition': 8, 'sequential_probe_hits': 60,
@@ -513,6 +513,14 @@ def case_overlap(seed, out, spec, wd):
     for i, st in enumerate(steps):
         if st['hold']:
             st['release_after'] = r.randrange(i, n) if r.chance(0.7) else n - 1
+    directed = use_cond and r.chance(0.4)
+    if directed:
+        # a hit that its condition is about to reject is parked inside the evaluation of that condition while a hit of
+        # another thread, whose condition holds, reaches the tracepoint: the rejected hit uses no budget, in whatever
+        # order the two are thought to happen, so the second one collects
+        n = 2
+        steps = [{'t_ms': 0, 'hold': True, 'release_after': 1, 'condition_true': False},
+                 {'t_ms': r.pick([0, 1, 3]), 'hold': False, 'release_after': None, 'condition_true': True}]
     gates = [HoldGate(st['hold']) for st in steps]
     for g, st in zip(gates, steps):
         g.cond = st['condition_true']
@@ -600,6 +608,13 @@ def case_overlap(seed, out, spec, wd):
         got_ts_all, got_ts = got_ts, got_ts[:before_probe[0]]
     if use_cond:
         out.count('overlap_cases_with_condition')
+    if directed and not stuck and before_probe[0] is not None:
+        out.count('true_hits_while_a_false_condition_was_being_evaluated')
+        if before_probe[0] < 1:
+            out.violation('ratelimit:due-hit-not-collected',
+                          'a hit whose condition holds (fire_count=%d, fire_period=%d ms, nothing collected before) was '
+                          'refused because a hit of another thread was still having its condition evaluated - a '
+                          'condition that then rejected it' % (fc, fp), witness, replay)
     if fc != -1 and len(got_ts) > fc:
         out.violation('ratelimit:concurrent-count-exceeded', '%d collections with fire_count=%d while earlier '
                                                              'collections were still open' % (len(got_ts), fc),
